@@ -1,0 +1,11 @@
+//go:build verif
+
+package db
+
+// Verification hook (add-only): lets a verification harness register its own
+// DB backend (a fault-injecting wrapper around an existing one) under a new
+// backend name, so that modules which open their DB through NewDB can be run
+// on it. No logic here.
+func RegisterDBCreatorVerif(backend string, creator func(name string, dir string, cache int) (DB, error)) {
+	registerDBCreator(backend, creator, true)
+}
